@@ -228,6 +228,14 @@ def _as_block(e):
     return {"k": "Block", "l": e["l"], "c": e["c"], "el": e["el"], "ec": e["ec"], "stmts": [{"k": "ExprStmt", "expr": e, "semi": True, "l": e["l"], "c": e["c"], "el": e["el"], "ec": e["ec"]}]}
 
 
+def _as_vblock(e):
+    """a block whose value is `e`"""
+    if e["k"] == "Block":
+        return e
+    pos = {k: e[k] for k in ("l", "c", "el", "ec")}
+    return {"k": "Block", "stmts": [{"k": "ExprStmt", "expr": e, "semi": False, **pos}], **pos}
+
+
 def _retarget_returns(body, try_form):
     """inside the closure body (not inside nested closures): `return` (for_each) / `return Ok(..)` (try_for_each) ends this element
     only = `continue`; a `return Err(..)` of a try_for_each closure leaves the function through the `?`, as a `return` in the loop does"""
@@ -355,9 +363,62 @@ def desugar_match_letelse(data):
             if y.get("k") == "PField" and y.get("pat") is b:
                 y["shorthand"] = False
         x["pat"] = keep["pat"]
-        x["else"] = _as_block(div[0]["body"])
+        x["else"] = _as_vblock(div[0]["body"])
         x["init"] = x["init"]["scrut"]
         n += 1
+    return n
+
+
+def _strip_pos(x):
+    if isinstance(x, dict):
+        return {k: _strip_pos(v) for k, v in x.items() if k not in ("l", "c", "el", "ec", "ml", "mc", "o")}
+    if isinstance(x, list):
+        return [_strip_pos(v) for v in x]
+    return x
+
+
+def merge_bool_arms(data):
+    """In place: two arms of one match whose patterns differ only in one field tested against `true` / `false`
+    (`V { f: true, .. } => A, V { f: false, .. } => B`) are one arm that binds the field and branches on it
+    (`V { f, .. } => if f { A } else { B }`): the flag read in the pattern or in the body.  Returns the number merged."""
+    n = 0
+    for x in [y for c in data.values() for y in A.walk(c)]:
+        if x.get("k") != "Match":
+            continue
+        arms = x["arms"]
+        i = 0
+        while i < len(arms):
+            a = arms[i]
+            merged = False
+            if a.get("guard") is None and a["pat"].get("k") == "PStruct":
+                for j in range(i + 1, len(arms)):
+                    b = arms[j]
+                    if b.get("guard") is not None or b["pat"].get("k") != "PStruct" or b["pat"]["path"] != a["pat"]["path"] or len(b["pat"]["fields"]) != len(a["pat"]["fields"]):
+                        continue
+                    fa = {f["name"]: f for f in a["pat"]["fields"]}
+                    fb = {f["name"]: f for f in b["pat"]["fields"]}
+                    if set(fa) != set(fb):
+                        continue
+                    diff = [k for k in fa if _strip_pos(fa[k]["pat"]) != _strip_pos(fb[k]["pat"])]
+                    if len(diff) != 1:
+                        continue
+                    k = diff[0]
+                    pa, pb = fa[k]["pat"], fb[k]["pat"]
+                    isb = lambda p: p.get("k") == "PLit" and p["lit"].get("lit") == "bool"
+                    if not (isb(pa) and isb(pb)) or pa["lit"]["v"] == pb["lit"]["v"]:
+                        continue
+                    t_arm, f_arm = (a, b) if pa["lit"]["v"] else (b, a)
+                    pos = {q: fa[k][q] for q in ("l", "c", "el", "ec")}
+                    fa[k]["pat"] = {"k": "PIdent", "name": k, "mut": False, "by_ref": False, "sub": None, **pos}
+                    fa[k]["shorthand"] = True
+                    apos = {q: a[q] for q in ("l", "c", "el", "ec")}
+                    a["body"] = {"k": "If", "cond": {"k": "Path", "path": k, **pos}, "then": _as_vblock(t_arm["body"]), "else": _as_vblock(f_arm["body"]), **apos}
+                    del arms[j]
+                    n += 1
+                    merged = True
+                    break
+            if not merged:
+                i += 1
     return n
 
 
@@ -661,7 +722,7 @@ def desugar_entry(data):
                 lookup = {"k": "MethodCall", "recv": copy.deepcopy(m), "method": "get", "args": [keyref], "turbofish": None, "ml": x["scrut"]["l"], "mc": x["scrut"]["c"], **{k: x["scrut"][k] for k in ("l", "c", "el", "ec")}}
                 pat = {"k": "PTupleStruct", "path": "Some", "elems": [occ["pat"]["elems"][0]], **{k: occ["pat"][k] for k in ("l", "c", "el", "ec")}}
                 new = {"k": "If", "cond": {"k": "Let", "pat": pat, "expr": lookup, **{k: x["scrut"][k] for k in ("l", "c", "el", "ec")}},
-                       "then": _as_block(occ["body"]), "else": _as_block(vac["body"]), **pos}
+                       "then": _as_vblock(occ["body"]), "else": _as_vblock(vac["body"]), **pos}
                 x.clear()
                 x.update(new)
                 n_done += 1
